@@ -67,7 +67,7 @@ AXES = {
     "charge": ["none", "array", "clusters"],
     "pixel": ["none", "f64", "f32", "f16"],
     "signal": ["none", "f64", "f32", "f16"],
-    "image": ["none", "u16", "u8", "u32", "u64", "u64big"],
+    "image": ["none", "u16", "u8", "u32", "u64", "u64big", "u16>u32", "u32>u16"],
     "scene": ["no", "yes"],
     "data": ["none", "flat", "nested"],
     "debug": ["off", "on", "const"],
@@ -77,7 +77,7 @@ FLOATS = {"f64": "float64", "f32": "float32", "f16": "float16"}
 UINTS = {"u8": "uint8", "u16": "uint16", "u32": "uint32", "u64": "uint64"}
 IDLE = {"m_photon_idle": "photon_collection", "m_charge_idle": "charge_generation", "m_pixel_idle": "charge_collection",
         "m_signal_idle": "charge_measurement", "m_image_idle": "readout_electronics"}
-GROUP_OF = {**IDLE, "m_charge2": "charge_generation",
+GROUP_OF = {**IDLE, "m_charge2": "charge_generation", "m_charge_scale": "charge_generation",
             "m_scene": "scene_generation", "m_photon": "photon_collection", "noop": "phasing",
             "m_charge": "charge_generation", "m_pixel": "charge_collection", "m_pixel_x2": "charge_transfer",
             "m_signal": "charge_measurement", "m_signal_same": "signal_transfer", "m_image": "readout_electronics",
@@ -160,6 +160,9 @@ def _image_spec(v, const):
         return None
     if v == "u64big":
         return {"dtype": "uint64", "vals": "big", "const": const}
+    if ">" in v:                 # the unsigned type changes after the first step; edge values of each type
+        a, b = v.split(">")
+        return {"dtype": UINTS[a], "by_step": [UINTS[a], UINTS[b]], "vals": "edge", "const": False}
     if "+" in v:
         dt, pal = v.split("+")
         return {"dtype": UINTS[dt], "vals": pal, "const": const}
@@ -194,6 +197,9 @@ def build_pipeline(cfg, salt, track=False):
     if cfg["charge"] != "none":
         add("charge_generation", "m_charge", {"charge": {"how": cfg["charge"], "const": const}})
         idle("charge_generation", "m_charge_idle")
+        if cfg["charge"] == "clusters":
+            # a later model of the same step doubles the existing clusters IN PLACE (set_frame_values)
+            add("charge_generation", "m_charge_scale", {"charge": {"how": "scale"}})
         if debug and cfg["charge"] == "array":
             # a second writer of the same bucket in the same group: the record of the first must keep the first's value
             add("charge_generation", "m_charge2", {"charge": {"how": "array", "const": const}})
@@ -226,6 +232,8 @@ def expected_charge(cfg, step, salt):
     if cfg["charge"] == "none":
         return np.zeros((ROWS, COLS))
     v = U.value_for("charge", 0 if cfg["debug"] == "const" else step, (ROWS, COLS), salt)
+    if cfg["charge"] == "clusters":
+        return 2 * v                                                                 # m_charge, doubled by m_charge_scale
     return 2 * v if (cfg["debug"] != "off" and cfg["charge"] == "array") else v      # m_charge + m_charge2
 
 
@@ -350,8 +358,12 @@ def check_record(res, snaps, sched, cfg, layout, bad, salt=0):
                     f"({np.asarray(sv).dtype}) at the end of step {i}", bucket=b, layout=layout, steps=steps, **extra)
                 break
         if b == "image":
-            want = np.asarray(vals[-1]).dtype
-            if var.dtype.kind != "u" or var.dtype != want:
+            # the unsigned type: the detector's own type when it is the same in every step, otherwise an unsigned type
+            # wide enough for the widest step
+            kinds = {np.asarray(v).dtype for v in vals}
+            want = max(kinds, key=lambda d: d.itemsize)
+            ok = var.dtype.kind == "u" and (var.dtype == want if len(kinds) == 1 else var.dtype.itemsize >= want.itemsize)
+            if not ok:
                 bad("image-dtype", f"[{layout}] image variable has dtype {var.dtype}, the detector's image is {want}",
                     layout=layout, dtype=str(want), steps=steps)
     # scene and processed data: returned unchanged
